@@ -5,13 +5,51 @@ import json, os
 V = os.path.dirname(os.path.dirname(os.path.abspath(__file__)))
 idx = json.load(open(os.path.join(V, "props_index.json")))
 TEXT = {
+ "C01": ("4.1", "Theorems (all SM simfiles in the stated domain, all sizes and values): serialize→load round trip on parameters and through any tokenizer satisfying the msdparser contract, stable re-serialization, SM auto-detection, chart parameter shape, multi-value components. Tie: objects built through the real API by random edit scripts, real serializer/tokenizer vs the Lean model; direct: strict re-parse, deep equality, text stability, shape clauses.",
+         "msdparser is a hypothesis (Msd.Contract + safeDoc), validated by its own stream; its escaping gaps are known findings."),
+ "C02": ("4.2", "Theorems: SSC round trip up to notesLast (note data moved last), equality when charts already end with their note data, nothing dropped whatever values coincide, stable re-serialization, SSC auto-detection, stand-alone chart round trip (one of NOTES/NOTES2). Tie and direct as C01, with shared string objects and empty/one-character note data.",
+         "msdparser contract as C01; object identity is visible to the harness only."),
+ "C03": ("4.3", "Theorems (arbitrary parameter lists): key upper-casing, first position/last value, multi-value vs first component vs key-only, SM charts and the <6 components error, SSC chart membership by nearest preceding NOTEDATA, the format rule, lenient/strict behaviour of load. Tie: 13 entry points x strict x generated/corpus/mutated texts against the model applied to the real tokenizer's output.",
+         "parse_msd is the trusted base; the plumbing of the entry points (rewind, tee, file objects) is tied by the correspondence only."),
+ "C04": ("4.4", "Theorems: whatever loads is in the serializer's domain, load→save→load is the identity (SSC: notesLast), a second save is a no-op; through any tokenizer satisfying the contract. Direct: performed with the real loader on generated, corpus and mutated texts.",
+         "msdparser contract; SSC charts without note data and escaping gaps are outside the domain."),
+ "C05": ("4.5", "Theorems about the mutate model: first decodable encoding, clash refused before any call, effect on the file map (output, backup, every other path unchanged), write order. Tie: filesystem call log and directory snapshot on native and in-memory filesystems; direct: bytes decoded with the detected codec and re-loaded.",
+         "codecs, text-mode I/O and the filesystem are parameters of the model (call-granularity); partial w.r.t. the runtime."),
+ "C06": ("4.6", "Theorems for every fault index k (unbounded): body exceptions and unsaveable simfiles cause no write-side call; a failing open keeps the input; with a backup requested the input is intact or the backup complete. Tie: every k-th write-side call failed on the real code, every exception class at every script position.",
+         "call-granularity faults; a failing open('w') is assumed not to truncate; OS crashes not modelled."),
+ "C07": ("4.7", "Theorems: decode(render c) = notesOf c for every well-formed decorated chart, column count, strict (player, beat, column) order, operator agreement. Tie: rendered charts and corpus charts decoded by impl, Lean model and Lean spec; operators on note pairs.",
+         "Python str.split/strip/splitlines modelled in Model/Str.lean; '&' must sit on its own line (explicit hypothesis)."),
+ "C08": ("4.8", "Theorems about the encoder model (empty stream, rows per measure, …) and decode∘encode where proved; tie: from_notes text, columns, read-back, canonical shape and second-pass stability on generated streams and corpus notes.",
+         "gcd/groupby modelled; see evidence for which clauses are theorems and which are tied only."),
+ "C09": ("4.9", "Theorems: group_notes model = declarative neighbour-classification spec for every option combination and every stream of distinct notes; counting functions = documented counts. Tie: exhaustive 2x4x5 grid (thorough), random streams, corpus charts x all 54 option combinations.",
+         "which orphan an exception names is not observed."),
+ "C10": ("4.10", "Theorems: ungroup∘group restores the surviving notes (see evidence for the proved range); tie: C09 streams x ungroup policies, hand-built sequences with a note inside a hold.",
+         "heapq with distinct keys modelled as sorted insertion."),
+ "C11": ("4.11", "Theorems (all timing data in the domain, all beats, all tags): the engine model equals the declarative timeline (tick sum outside the warp union + pauses passed), monotone, offset shift, bpm_at, redundant BPM changes change nothing. Tie: impl floats vs exact rationals within 1e-9 s on grid placements (exhaustive in thorough), random and corpus timing data.",
+         "IEEE-754 arithmetic not modelled (measured deviation ≤ 1e-9 s); bisect/heapq.merge modelled verbatim."),
+ "C12": ("4.12", "Theorems about the repaired beat_at (search on state times) and the counter-example for the old algorithm; tie: symbolic boundary queries, pauses, dyadic times; direct: inversion, pauses, closeness, WARP tag, monotonicity, independence on the impl.",
+         "float rounding in beats_until not modelled; half-tick ties reported separately."),
+ "C13": ("4.13", "Theorems: hittable = 'inside the warp union and no pause on that beat'; time_notes = the documented map. Tie: every tick around every event; generated routine/keysounded note data and corpus charts x 3 options.",
+         "float arithmetic not modelled."),
  "C14": ("4.14", "Theorems (all beats, unbounded grid): exact construction, rounding lands on the 1/48 grid within 1/96, every rational within half a tick of n/48 rounds to n/48, the three-decimal text of every tick reads back as that tick (with 1/10000 slack for the float conversion). Tie: impl vs Lean model on rounding, str(), BeatValues; direct: typed exact arithmetic, str/from_str on every tick of a range, BeatValues and TimingData round trips.",
          "float(Fraction), '%.3f' and Decimal are CPython's (checked on the grid, not proved); 'result is again a Beat' is observed on every operator, not a theorem."),
+ "C15": ("4.15", "Theorems: the source rule as an iff over all simfiles/charts (3^11 is a ∀), single source, offset default, displayed-BPM rule; the eleven properties and the 0.7 threshold pinned against the generated tables. Tie/direct: enumerated configurations with marker values.",
+         "float()/Decimal() on plain decimal literals only."),
+ "C16": ("4.16", "Theorems: every source property and chart kept, negative values refused, no invalid properties for SSC targets (generated table). Direct on the impl: timing and notes equal through the library's readers, nothing modified or shared, reload equality.",
+         "aliasing/unmodified clauses are observed by the harness, not proved (value-semantics model)."),
+ "C17": ("4.17", "Theorems: should-copy decision table for all behaviour mappings, first offending property, warps refused, totality on the claimed domain; defaults pinned against the generated tables. Direct: documented policy transcribed independently; all 1024 total mappings in thorough.",
+         "chart keys outside the table and COPY_ANYWAY on chart kinds are known findings (bare KeyError)."),
+ "C18": ("4.18", "Theorems over arbitrary operation histories: attribute = standard key or alias exactly when…, set/get, delete of absent, other keys and order unaffected, WF invariant, SM chart keeps its six keys and refuses add/remove. Tie: all op sequences to a bounded depth from 5 initial mappings per kind/alias + long random histories against a dictionary model and the Lean model.",
+         "OrderedDict is CPython's."),
+ "C19": ("4.19", "Theorems: first listed .sm/.ssc by case-insensitive suffix, duplicate iff two of a kind, SSC preferred, pack = exactly the immediate sub-directories containing a simfile. Tie: random trees on native and in-memory filesystems with the real listing order; loader options observed at simfile.open.",
+         "listdir/isdir are the filesystem's."),
+ "C20": ("4.20", "Theorems: named file first (case-insensitive), else first listed pattern match, None iff none, answers are listing entries, music by extension, pack banner by extension priority; presets pinned to the modelled regex fragment. Direct: membership, existence, stability.",
+         "Python re trusted for lit/^lit/lit$; which of several matches is not claimed."),
 }
 checks, na = [], []
 for i in range(1, 21):
     pid = "C%02d" % i
-    if pid in idx and os.path.exists(os.path.join(V, "harness", "adapters", pid.lower() + ".py")):
+    if pid in idx and idx[pid].get("theorems") and os.path.exists(os.path.join(V, "harness", "adapters", pid.lower() + ".py")):
         ref, text, note = TEXT.get(pid, ("4.%d" % i, idx[pid].get("text", ""), idx[pid].get("note", "")))
         checks.append({
             "property_id": pid,
@@ -25,7 +63,7 @@ for i in range(1, 21):
             "technique": "Lean 4 theorems about an executable model + differential correspondence with the Python implementation",
         })
     else:
-        na.append({"property_id": pid, "reason": "check not built yet in this round (planned: DESIGN.md §4.%d); not a claim that the technique cannot apply" % i})
+        na.append({"property_id": pid, "reason": "model and correspondence check exist (./check %s runs them) but no property theorem has been merged yet, so no proof-level claim is made in this commit (DESIGN.md §4.%d)" % (pid, i)})
 m = {
  "version": 1,
  "setup_cmd": "./check --setup",
